@@ -97,6 +97,16 @@ def agStep (s : St) (j : Json) : R (St × Json × Json) := do
             (← jfield (jlist jint) j "reached") with
     | .ok s' => ok s'
     | .error e => pure (s, jS (errName e), Json.null)
+  | "add_node_again" =>
+    -- `add_node` called with a node object that exists already (handle `n`)
+    match addNodeObj s (← jfield jnat j "n") (← jfieldOpt jint j "id") with
+    | .ok s' => ok s'
+    | .error e => pure (s, jS (errName e), Json.null)
+  | "add_attacker_again" =>
+    match addAttackerObj s (← jfield jnat j "a") (← jfieldOpt jint j "id") (← jfield (jlist jint) j "entry")
+            (← jfield (jlist jint) j "reached") with
+    | .ok s' => ok s'
+    | .error e => pure (s, jS (errName e), Json.null)
   | "remove_attacker" => ok (removeAttacker s (← jfield jnat j "a"))
   | "compromise" => ok (compromise s (← jfield jnat j "a") (← jfield jnat j "n"))
   | "undo" => ok (undo s (← jfield jnat j "a") (← jfield jnat j "n"))
